@@ -62,10 +62,12 @@ func (s *socket) RecvMsg() (*protocol.Message, error) {
 	// For now this uses a simple unified queue for the entire
 	// socket.  Later we can look at moving this to priority queues
 	// based on socket pipes.
+	// The deadline is armed once per call: a queue resize restarts the
+	// wait, it does not extend the deadline.
 	tq := nilQ
 	for {
 		s.Lock()
-		if s.recvExpire > 0 {
+		if tq == nil && s.recvExpire > 0 {
 			tq = time.After(s.recvExpire)
 		}
 		cq := s.closeQ
